@@ -29,13 +29,15 @@ PROPS = {
         technique="Coq proof (invariant by induction over labels) + lock-step correspondence against the extracted model",
     ),
     "C02": dict(
-        runs=[("coll", "flat", "flatrun", 320, 6000, 26), TREE + (160, 3000, 26)],
+        runs=[("coll", "flat", "flatrun", 320, 6000, 26), TREE + (160, 3000, 26), ("refs", "", "refsrun", 64, 1500, 0)],
         corr=STRUCT | READS, corr_held=True,
-        spec=set(), spec_held=True,
+        spec={"spec:handle-changed", "spec:ref-use-after-release"}, spec_held=True,
         rule="as C01 with Merge operations; up to three snapshots are held open across the rest of each case and "
              "re-read in full (Get per universe key + iteration) after every later label, including across "
              "compactions and close/reopen of collection and store; non-trivial = a held snapshot was re-read after "
-             "a later batch changed one of its keys (approximated by: case has a held snapshot and >= 2 sections share a key)",
+             "a later batch changed one of its keys (approximated by: case has a held snapshot and >= 2 sections share a key); "
+             "the handle-lifetime family adds store snapshots, previous snapshots, child snapshots and iterators (also "
+             "iterators that outlive their snapshot) re-read after every later round, compaction, revert-free reopen and Close",
         technique="Coq proof (snapshots are values; cache-soundness invariant) + re-read of open handles after every label",
     ),
     "C08": dict(
